@@ -16,6 +16,7 @@ import (
 	"context"
 	"fmt"
 	"os"
+	"strings"
 	"testing"
 
 	"github.com/0chain/common/core/logging"
@@ -35,6 +36,9 @@ type c04op struct {
 
 func (o c04op) String() string {
 	s := "set " + o.key + "=" + o.val
+	if len(o.val) > 32 {
+		s = fmt.Sprintf("set %s=<%d bytes>", o.key, len(o.val))
+	}
 	if o.val == "" {
 		s = "del " + o.key
 	}
@@ -49,6 +53,8 @@ type c04env struct {
 	roots  []Key
 	models []map[string]string
 }
+
+var c04big = strings.Repeat("Z", MPTMaxAllowableNodeSize)
 
 func c04val(s string) *SecureSerializableValue { return &SecureSerializableValue{Buffer: []byte(s)} }
 
@@ -114,7 +120,7 @@ func (e *c04env) readable(i int, keys []string) error {
 		case present && err != nil:
 			return fmt.Errorf("root of round %d: read %s from the store alone: %v", i+1, k, err)
 		case present && string(v) != want:
-			return fmt.Errorf("root of round %d: %s reads %q, want %q", i+1, k, v, want)
+			return fmt.Errorf("root of round %d: %s reads %d bytes %.20q, want %d bytes %.20q", i+1, k, len(v), v, len(want), want)
 		case !present && err == nil:
 			return fmt.Errorf("root of round %d: %s reads %q, want absent", i+1, k, v)
 		case !present && err != ErrValueNotPresent:
@@ -152,7 +158,7 @@ func TestGocvBoundedC04(t *testing.T) {
 	// two key families: fixed-length keys, and keys where one is a prefix of others (a value on a branch)
 	c04family(t, []string{"0a01", "0a02", "0b01", "0b02"}, "fixed-length keys")
 	c04family(t, []string{"12", "1234", "1256", "34"}, "prefix-related keys")
-	fmt.Printf("GOCV-BOUNDED cases=%d failures=%d scope=\"two key families ({0a01,0a02,0b01,0b02}; {12,1234,1256,34} with a value on a branch); 3 rounds; round 2: all sequences of <= 3 single-operation child transactions (2 values, delete), merged (thorough: or discarded); crash at every write of round 2's RecordDeadNodes+SaveChanges stream; reopen on the store alone at every saved root\"\n", c04cases, c04fails)
+	fmt.Printf("GOCV-BOUNDED cases=%d failures=%d scope=\"two key families ({0a01,0a02,0b01,0b02}; {12,1234,1256,34} with a value on a branch); 3 rounds; round 2: all sequences of <= 3 single-operation child transactions (2 values, delete), merged (thorough: or discarded); crash at every write of round 2's RecordDeadNodes+SaveChanges stream; plus rounds storing a value of MPTMaxAllowableNodeSize bytes; reopen on the store alone at every saved root\"\n", c04cases, c04fails)
 	if c04fails > 0 {
 		t.Fail()
 	}
@@ -304,4 +310,7 @@ func c04family(t *testing.T, keys []string, famName string) {
 		}
 	}
 	rec(nil)
+	// a round that stores the largest value Insert admits (the encoded leaf is larger than the value)
+	runSeq([]c04op{{key: keys[1], val: c04big}})
+	runSeq([]c04op{{key: keys[3], val: c04big}, {key: keys[0], val: "50"}})
 }
